@@ -4,7 +4,7 @@ the property it was written against; every harmless patch must not be reported. 
 /tmp/sreg (removed afterwards); /repo is never touched.   usage: seeded_regress.py [id-substring ...]"""
 import glob, json, os, re, shutil, subprocess, sys
 VERIF = os.path.dirname(os.path.dirname(os.path.abspath(__file__)))
-SCR = '/tmp/sreg'
+SCR = '/tmp/sreg-%d' % os.getpid()
 TARGET = {  # property the change was written against (second round: see meta.json author notes)
     'S2-stream-1': ['C02'], 'S2-stream-2': ['C02'], 'S2-stream-3': ['C04'], 'S2-stream-4': ['C05'],
     'S2-request-1': ['C03'], 'S2-request-2': ['C05'], 'S2-request-3': ['C03'],
@@ -36,14 +36,14 @@ def main():
         if name.startswith('harmless-'):
             for patch in sorted(glob.glob(os.path.join(mdir, 'h*.diff'))):
                 d = scratch(name + '-' + os.path.basename(patch), patch)
-                for p in HARMLESS[name]:
+                for p in HARMLESS.get(name) or [name.split('-')[-1]]:
                     rc, obs = check(d, p)
                     flag = 'ok' if rc != 1 else '*** FALSE ALARM ***'
                     bad += rc == 1
                     print(f'{name}/{os.path.basename(patch)} ./check {p}: rc={rc} {flag} {obs}', flush=True)
                 shutil.rmtree(d, ignore_errors=True)
             continue
-        props = TARGET.get(name) or [re.match(r'(C\d+)-', name).group(1)]
+        props = TARGET.get(name) or [re.search(r'(C\d+)-', name).group(1)]
         d = scratch(name, os.path.join(mdir, 'patch.diff'))
         for p in props:
             rc, obs = check(d, p)
